@@ -1,0 +1,70 @@
+//go:build verif
+
+package cty
+
+// Contracts on paths (C19). Comment-only file.
+//
+// RawEquals defines the relation raw_eq (it is assumed to be a function of its two operands;
+// its algebra is C03's subject).
+//@ func (cty.Value).RawEquals
+//@   trusted
+//@   ensures (= result (raw_eq val other))
+//
+//@ func (cty.Path).Equals
+//@   tags C19
+//@   ensures[C19] (= result (and (= (Slice.len p) (Slice.len other)) (paths_eq p other (Slice.len p))))
+//@   loop 1 invariant (paths_eq p other $i)
+//
+//@ func (cty.Path).HasPrefix
+//@   tags C19
+//@   ensures[C19] (= result (and (<= (Slice.len prefix) (Slice.len p)) (paths_eq p prefix (Slice.len prefix))))
+//
+//@ func (cty.Path).Copy
+//@   tags C19 C20
+//@   fresh result
+//@   ensures[C19] (and (= (Slice.len result) (Slice.len p)) (= (Slice.off result) 0) (forall ((j Int)) (! (=> (and (trig j) (<= 0 j) (< j (Slice.len p))) (= (select (select $H<Arr<Any>> (Slice.ptr result)) j) (path_at p j))) :pattern ((trig j)))))
+//
+//@ func (cty.Path).GetAttr
+//@   tags C19 C20
+//@   fresh result
+//@   ensures[C19] (and (= (Slice.len result) (+ (Slice.len p) 1)) (= (Slice.off result) 0) (= (select (select $H<Arr<Any>> (Slice.ptr result)) (Slice.len p)) (box<cty.GetAttrStep> (mk.cty.GetAttrStep mk.cty.pathStepImpl name))) (forall ((j Int)) (! (=> (and (trig j) (<= 0 j) (< j (Slice.len p))) (= (select (select $H<Arr<Any>> (Slice.ptr result)) j) (path_at p j))) :pattern ((trig j)))))
+//
+//@ func (cty.Path).Index
+//@   tags C19 C20
+//@   fresh result
+//@   ensures[C19] (and (= (Slice.len result) (+ (Slice.len p) 1)) (= (Slice.off result) 0) (= (select (select $H<Arr<Any>> (Slice.ptr result)) (Slice.len p)) (box<cty.IndexStep> (mk.cty.IndexStep mk.cty.pathStepImpl v))) (forall ((j Int)) (! (=> (and (trig j) (<= 0 j) (< j (Slice.len p))) (= (select (select $H<Arr<Any>> (Slice.ptr result)) j) (path_at p j))) :pattern ((trig j)))))
+//
+//@ func (cty.GetAttrStep).Apply
+//@   tags C19
+//@   requires (or (= val $G<cty.NilVal>) (wf_deep val))
+//@   let t (vty val)
+//@   let nm (nfc (cty.GetAttrStep.Name s))
+//@   ensures[C19] exists_iff: (= (= result.1 nil.Any) (and (not (= val $G<cty.NilVal>)) (not (is_null val)) (is_obj_ty t) (select (obj_dom t) nm)))
+//@   ensures[C19] member: (=> (= result.1 nil.Any) (and (= (vty result.0) (obj_aty t nm)) (wf_deep result.0) (=> (is_known val) (= (inner_v result.0) (strip (select (MapC<String~Any>.val (pl_mapc val)) nm))))))
+//@   ensures[C19] errnil: (=> (not (= result.1 nil.Any)) (= result.0 $G<cty.NilVal>))
+//
+//@ func (cty.IndexStep).Apply
+//@   tags C19
+//@   requires (and (or (= val $G<cty.NilVal>) (wf_deep val)) (wf_deep (cty.IndexStep.Key s)))
+//@   let t (vty val)
+//@   let key (cty.IndexStep.Key s)
+//@   let kt (vty (cty.IndexStep.Key s))
+//@   ensures[C19] list: (=> (and (is_list_ty t) (is_number_ty kt) (kn val) (kn key)) (and (= (= result.1 nil.Any) (seq_has val key)) (=> (= result.1 nil.Any) (= (inner_v result.0) (strip (pl_seq_at val (bf.int64 (bf_of key))))))))
+//@   ensures[C19] tuple: (=> (and (is_tuple_ty t) (is_number_ty kt) (kn val) (kn key)) (and (= (= result.1 nil.Any) (tup_has val key)) (=> (= result.1 nil.Any) (= (inner_v result.0) (strip (pl_seq_at val (bf.int64 (bf_of key))))))))
+//@   ensures[C19] map: (=> (and (is_map_ty t) (is_string_ty kt) (kn val) (kn key)) (and (= (= result.1 nil.Any) (map_has val key)) (=> (= result.1 nil.Any) (= (inner_v result.0) (strip (select (MapC<String~Any>.val (pl_mapc val)) (str_of key)))))))
+//@   ensures[C19] wrongshape: (=> (or (= val $G<cty.NilVal>) (is_null val) (not (or (and (is_number_ty kt) (or (is_list_ty t) (is_tuple_ty t))) (and (is_string_ty kt) (is_map_ty t))))) (not (= result.1 nil.Any)))
+//@   ensures[C19] wf: (=> (= result.1 nil.Any) (wf_deep result.0))
+//@   ensures[C19] errnil: (=> (not (= result.1 nil.Any)) (= result.0 $G<cty.NilVal>))
+//
+// Interface contract of PathStep.Apply: what both implementers above guarantee.
+//@ func (cty.PathStep).Apply
+//@   trusted
+//@   requires (and (step_wf recv) (or (= arg0 $G<cty.NilVal>) (wf_deep arg0)))
+//@   ensures (=> (= result.1 nil.Any) (wf_deep result.0))
+//
+//@ func (cty.Path).Apply
+//@   tags C19
+//@   requires (and (path_wf p (Slice.len p)) (or (= val $G<cty.NilVal>) (wf_deep val)))
+//@   ensures[C19] ok: (=> (= result.1 nil.Any) (or (wf_deep result.0) (and (= (Slice.len p) 0) (= result.0 val))))
+//@   ensures[C19] errnil: (=> (not (= result.1 nil.Any)) (= result.0 $G<cty.NilVal>))
+//@   loop 1 invariant (or (wf_deep val) (and (= $i 0) (= val $p.val)))
